@@ -21,6 +21,7 @@
 package sidx
 
 import (
+	"bytes"
 	"github.com/apache/skywalking-banyandb/api/common"
 	"github.com/apache/skywalking-banyandb/pkg/encoding"
 	pbv1 "github.com/apache/skywalking-banyandb/pkg/pb/v1"
@@ -64,6 +65,11 @@ func unmarshalTag(dest [][]byte, src []byte, valueType pbv1.ValueType) ([][]byte
 			next int
 			err  error
 		)
+		// UnmarshalVarArray decodes an escaped entry in place. src may be a dictionary entry shared by
+		// several rows of the block, so an array that carries an escape is decoded on a copy.
+		if bytes.IndexByte(src, encoding.Escape) >= 0 {
+			src = append([]byte(nil), src...)
+		}
 		for idx := 0; idx < len(src); idx = next {
 			end, next, err = encoding.UnmarshalVarArray(src, idx)
 			if err != nil {
